@@ -159,10 +159,12 @@ def run_driver(driver, args):
     if rc != 0:
         return "driver build failed: " + (e or "")[-1500:], False
     argv = [exe] + ["%s=%s" % (k, v) for k, v in sorted(args.items())]
+    os.environ["ASAN_OPTIONS"] = "detect_leaks=0"
     rc, o, e = run(argv, timeout=300)
     text = "$ " + " ".join(shlex.quote(x) for x in argv) + "\n" + (o or "") + (e or "")[-3000:]
-    found = ("REPRODUCED" in (o or "")) or ("AddressSanitizer" in (e or "")) or rc not in (0,)
-    if "NOT-REPRODUCED" in (o or "") and "AddressSanitizer" not in (e or ""):
+    asan = "ERROR: AddressSanitizer" in (e or "")
+    found = ("REPRODUCED: " in (o or "")) or asan or rc not in (0, 1)
+    if "NOT-REPRODUCED" in (o or "") and not asan:
         found = False
     return text, found
 
